@@ -4,6 +4,7 @@ import (
 	"fmt"
 	"go/token"
 	"go/types"
+	"strconv"
 	"strings"
 
 	"fsverif/eng"
@@ -12,7 +13,7 @@ import (
 )
 
 func init() {
-	register("C10", "Structural clauses that keep the pruning shortcuts of the filtered walk unobservable, decided on all paths of filterFS.Walk's callback: every pattern-based SkipDir exit is unreachable unless the entry is a directory, the matching prefix-only flag is set and the matcher's verdict is the pruning one; every path-containment prefix test is separator-terminated; match infos of the include and exclude matcher are never crossed; the user callback is unreachable for an entry a matcher rejected, is preceded by the map function on the same stat when one is set, and is unreachable in the iteration where the map function said exclude/skip; lazily emitted ancestors are marked before they are reported and not reported twice. Does not decide equivalence with the reference filter for all pattern lists, the flag computation, or patternmatcher itself.", runC10)
+	register("C10", "Structural clauses that keep the pruning shortcuts of the filtered walk unobservable, decided on all paths of filterFS.Walk's callback: every pattern-based SkipDir exit is unreachable unless the entry is a directory, the matching prefix-only flag is set and the matcher's verdict is the pruning one; every path-containment prefix test is separator-terminated; match infos of the include and exclude matcher are never crossed; the user callback is unreachable for an entry a matcher rejected, is preceded by the map function on the same stat when one is set, and is unreachable in the iteration where the map function said exclude/skip; lazily emitted ancestors are marked before they are reported and not reported twice. The wildcard test that allows text-level pruning looks for '*', '?' and '['. Does not decide equivalence with the reference filter for all pattern lists, the flag computation, or patternmatcher itself.", runC10)
 }
 
 func runC10(c *Ctx) {
@@ -26,6 +27,7 @@ func runC10(c *Ctx) {
 	r10_9(c, "R10.9")
 	r10_10(c, "R10.10")
 	r04_8(c, "R10.6")
+	r10_11(c, "R10.11")
 }
 
 const pmMatch = "(*github.com/moby/patternmatcher.PatternMatcher).MatchesUsingParentResults"
@@ -831,4 +833,37 @@ func r10_5(c *Ctx, rule string) {
 		}
 	})
 	c.R.Check(own >= 1, rule, base+"/own-record-marked", c.P.Pos(lit.Pos()), "a directory that is itself reported is recorded as reported", "a reported directory is not recorded as calledFn: it is reported a second time as an ancestor of its first child")
+}
+
+// R10.11: what counts as "a pattern without wildcards".
+//
+// The pruning shortcuts compare pattern TEXT with path text; that is only
+// right for patterns that are plain paths. NewFilterFS decides it by looking
+// for metacharacters: the set it looks for contains every character that
+// makes filepath.Match / patternmatcher treat a component as a pattern.
+func r10_11(c *Ctx, rule string) {
+	c.R.Rule(rule, "NewFilterFS: the character set that disqualifies a pattern from prefix-only treatment contains '*', '?' and '['")
+	nf := c.Fn(rule, "fsutil.NewFilterFS")
+	if nf == nil {
+		return
+	}
+	n := 0
+	for _, call := range c.P.CallsTo(nf, "strings.ContainsAny", "strings.IndexAny") {
+		n++
+		set := ""
+		c.DerivesFrom(call.Common().Args[1], func(v ssa.Value) bool {
+			if s, ok := eng.ConstString(v); ok {
+				set += s
+			}
+			return false
+		}, 5)
+		missing := ""
+		for _, ch := range "*?[" {
+			if !strings.ContainsRune(set, ch) {
+				missing += string(ch)
+			}
+		}
+		c.R.Check(missing == "", rule, c.siteName(call)+"/metacharacters", c.pos(call), "looks for "+strconv.Quote(set), "the wildcard test of a pattern does not look for "+strconv.Quote(missing)+" (set "+strconv.Quote(set)+"): a pattern with that metacharacter is compared as literal text and directories that contain matches are pruned")
+	}
+	c.R.Floor(rule, "wildcard tests of patterns in NewFilterFS", n, 2)
 }
